@@ -653,6 +653,15 @@ class Program:
             # parameters annotated Any / not annotated: the union of what the call sites pass
             for name, ty in self._param_types_from_callers(fi, untyped).items():
                 loc[name] = ty
+        # a parameter annotated with a bare `Callable[...]` (no role in its name): when every call site passes a user
+        # callable of a known role (`_call_quietly(self.on_metric, ...)`), the parameter plays those roles
+        generic = [p.arg for p in params if loc.get(p.arg) and loc[p.arg] != ANY and any(a[0] == "cb" and str(a[1]).startswith("callable:") for a in loc[p.arg]) and all(a[0] in ("cb", "none") for a in loc[p.arg])]
+        if generic and not isinstance(node, ast.Lambda):
+            for name, ty in self._param_types_from_callers(fi, generic).items():
+                roles = frozenset(a for a in ty if a[0] == "cb" and not str(a[1]).startswith("callable:"))
+                rest = frozenset(a for a in ty if a not in roles and a[0] != "none")
+                if roles and not rest:
+                    loc[name] = roles | frozenset(a for a in loc[name] if a[0] == "none") | frozenset(a for a in ty if a[0] == "none")
 
         def add(name: str, ty: Ty) -> None:
             if name in loc and loc[name] != ANY and ty != ANY:
@@ -699,7 +708,10 @@ class Program:
         out: dict[str, Ty] = {}
         pos = fi.positional_params()
         i0 = 1 if (fi.is_method and not fi.is_staticmethod) else 0
-        for caller, call in self._call_sites_by_name().get(fi.name, []):
+        sites = self._call_sites_by_name().get(fi.name, [])
+        if fi.name == "__init__" and fi.cls is not None:
+            sites = self._call_sites_by_name().get(fi.cls.name, [])  # constructor calls `C(...)`
+        for caller, call in sites:
             if caller is fi:
                 continue
             try:
